@@ -599,7 +599,7 @@ Definition is_instance (v : pv) (cls : string) : option bool :=
   end.
 
 Definition builtin_names : list string :=
-  ["len"; "bytes"; "int"; "bool"; "str"; "tuple"; "list"; "set"; "range"; "isinstance"; "enumerate"; "round"; "float"; "getattr"].
+  ["len"; "bytes"; "int"; "bool"; "str"; "tuple"; "list"; "set"; "range"; "isinstance"; "enumerate"; "round"; "float"; "getattr"; "callable"].
 Definition builtin_types : list string := ["tuple"; "list"; "int"; "bool"; "str"; "bytes"; "set"].
 Definition module_names : list string := ["struct"; "crcmod"; "copy"; "queue"].
 
@@ -1000,6 +1000,17 @@ Section Interp.
           | [v; PStr a] => get_attr v a
           | _ => Unsupported "getattr()"
           end
+        else if String.eqb n "callable" then
+          (* ADDITIVE (pl15): callable(v).  An instance is callable iff its class (or a base) defines
+             __call__; functions, builtins, classes, CRC functions are; data values are not. *)
+          match args with
+          | [v] => Ok (PBool (match v with
+                              | PObj c _ => match find_method P mro_depth c "__call__" with Some _ => true | None => false end
+                              | PFunc _ | PBuiltin _ | PCls _ | PCrc _ => true
+                              | _ => false
+                              end))
+          | _ => Exc "TypeError"
+          end
         else call_builtin P n args
     | PFunc n =>
         match find_func (p_funcs P) n with
@@ -1087,7 +1098,27 @@ Section Interp.
     match r with
     | PObj c fs =>
         match lookup m fs with
-        | Some fv => do x <- strip (call_value fv args kws); Ok (x, r)   (* a callable kept in a field: its state is not ours *)
+        | Some fv =>
+            (* ADDITIVE (pl15): the field holds an INSTANCE whose class defines __call__ (before: TypeError).
+               [recv.m(args)] runs __call__ with that instance as its receiver and stores the instance it
+               leaves behind back into the field [m] of [recv] (Python on an alias-free object graph: the
+               callable is reachable through this field only); a raise reports the receiver likewise. *)
+            match fv with
+            | PObj c' _ =>
+                match find_method P mro_depth c' "__call__" with
+                | Some f =>
+                    match callf f (fv :: args) kws with
+                    | Ok x => Ok (fst x, PObj c (update m (match snd x with Some s => s | None => fv end) fs))
+                    | Exc e => Exc e
+                    | ExcS e ((_, fv') :: nil) => ExcS e [("$self", PObj c (update m fv' fs))]
+                    | ExcS e st => ExcS e []
+                    | Fuel => Fuel
+                    | Unsupported w => Unsupported w
+                    end
+                | None => do x <- strip (call_value fv args kws); Ok (x, r)
+                end
+            | _ => do x <- strip (call_value fv args kws); Ok (x, r)   (* a callable kept in a field: its state is not ours *)
+            end
         | None =>
             match find_method P mro_depth c m with
             | Some f =>
